@@ -136,6 +136,7 @@ def _dmrg_(psi, H : MpsMpoOBC | Sequence[tuple[MpsMpoOBC, float]], project, meth
 
     if not psi.is_canonical(to='first'):
         psi.canonize_(to='first')
+    psi.factor = 1  # a canonical state passed with factor != 1 would otherwise keep it in 2-site sweeps
 
     env = Env(psi, [H, psi], precompute=precompute)
     if project:
